@@ -1242,6 +1242,45 @@ def f(xs: list[fp.Real], ys: list[fp.Real], x: fp.Real) -> fp.Real:
 ''', 'f', [('list', [1, 2]), ('list', [1, 2]), 'real'], ['analysis', 'no_ref'])
 
 
+prog('vc_isnormal_branches', '''
+@fp.fpy
+def f(x: fp.Real, y: fp.Real) -> fp.Real:
+    with fp.MPSFloatContext(3, 2):
+        a = fp.round(x)
+        b = fp.round(y)
+        if fp.isnormal(a):
+            r = a + b
+        else:
+            r = abs(a)
+        if not fp.isnormal(b):
+            r = r + abs(b)
+    return r
+''', 'f', ['real', 'real'], ['analysis', 'no_ref'])
+
+prog('size_affine_const_minus', '''
+@fp.fpy(ctx=fp.REAL)
+def f(xs: list[fp.Real], r: int) -> fp.Real:
+    ys = xs[(2 - r):(2 + r)]
+    acc = 0
+    for i in range(2 - r, 2 + r):
+        acc = acc + xs[i]
+    zs = [v for v in ys]
+    return acc + len(ys) + len(zs)
+''', 'f', [('list', [3]), ('int', [0, 1])], ['analysis', 'no_ref'])
+
+prog('alias_nested_store', '''
+@fp.fpy
+def f(x: fp.Real, y: fp.Real) -> fp.Real:
+    row = [x, y]
+    cube = [[[x], [y]], [[y], [x]]]
+    cube[0][1] = row
+    t = cube[0][1]
+    t[0] = y + 1
+    u = cube[1]
+    return row[0] + t[1] + u[0][0]
+''', 'f', ['real', 'real'], ['analysis', 'alias', 'no_ref'])
+
+
 def namespace():
     """contexts the corpus programs refer to by name"""
     import fpy2 as fp
